@@ -140,6 +140,7 @@ def _judge_builder(rec, ctx, ff, edw, phsp, resonance, pool, result, hook):
 def run_case(case, rec, ctx):
     import sympy as sp
     from scipy.special import spherical_jn, spherical_yn
+    from vmon.core import CaseTimeout, watchdog
     D, B = ctx["D"], ctx["B"]
     rng = np.random.default_rng([ctx["seed"], 12, case["idx"]])
     ctx["case_rng"] = rng
@@ -176,9 +177,19 @@ def run_case(case, rec, ctx):
         # symbolic-L path (defining Hankel expression) vs integer (polynomial) path
         ell = sp.Symbol("ell", integer=True, nonnegative=True)
         sym = D.BlattWeisskopfSquared(z, ell).doit()
-        for zv in (0.013, 0.7, 1.0, 9.5, 312.0):
-            a = complex(sym.subs(ell, L).doit().subs(z, zv).evalf())
+        for zv in (0.013, 0.7, 1.0, 4, 9.5, 312.0):
             b = float(f(zv))
+            try:
+                with watchdog(20):
+                    a = complex(sym.subs(ell, L).doit().subs(z, zv).evalf())
+            except CaseTimeout:
+                rec.inconclusive_event("symbolic-L route did not finish in 20 s", f"L={L}, z={zv}")
+                continue
+            except Exception as exc:  # noqa: BLE001
+                # unfolding with a symbolic L and inserting the integer afterwards is a documented route (issue 426)
+                rec.check(False, "bw_polynomial_vs_hankel", f"symbolic-L route B_ell^2(z).doit() with ell={L}, z={zv} inserted afterwards cannot be evaluated "
+                          f"({type(exc).__name__}: {str(exc)[:120]}); polynomial path gives {b!r}", {"L": L, "z": zv}, feats)
+                continue
             rec.check(abs(a - b) <= 1e-10 * abs(b), "bw_polynomial_vs_hankel", f"polynomial path B_{L}^2({zv}) = {b!r} but symbolic-L Hankel path = {a!r}", {"L": L, "z": zv}, feats)
         return
     if chk == "width_norm":
